@@ -164,6 +164,8 @@ def run_obligation(res, prop, st_name, N, findings, scenario="single", cfg=None)
             if r["tag"] == "EXC":
                 name, msg, frame = r["err"]
                 cls = "STAGE-shacl-shapemap-crash" if (shapemap and r["want_shacl"] and "shacl_serializer" in frame) else None
+                if cls is None and r["want_shacl"] and not r["or_flags"][0] and ("fixed_prop_choice_statement" in frame or "shacl_serializer" in frame):
+                    cls = "STAGE-shacl-or-statements-crash"
                 items.append(("extraction raised %s (%s) at %s [run %s]" % (name, msg, frame, r["name"]), True, cls))
                 r["schema"], r["parse_problem"] = None, "no output"
             else:
